@@ -416,6 +416,9 @@ def run(ctx, res):
     consumers(prog, res)
     res.guard(iterators, prog, res)
     bytes_of_type_table(prog, res)
+    from ..indexguard import rule_index_guards
+    res.guard(rule_index_guards, prog, res, ["bytes_of_type", "sample_type_as_string"])
+    res.require_min("R-INDEX", 2)
     if n < 2:
         raise AnalysisBroken("expected two frame producers (source, filter), found %d" % n)
     res.require_min("WITNESS", 7)
